@@ -142,6 +142,13 @@ def has_target(c, obj, names):
     return z3.Or(*[t[0] for t in all_targets(c, obj, names)])
 
 
+def target_exists(st, obj, ns, ev, names):
+    """some handler or class-based namespace is responsible for (ns, ev)"""
+    h = st.get(obj, 'handlers')
+    nh = st.get(obj, 'namespace_handlers')
+    return z3.Or(*([t[0] for t in event_targets(h, ns, ev, reserved(ev, names))] + [t[0] for t in ns_targets(nh, ns)]))
+
+
 TARGET_LABELS = ['ns-event', 'ns-catchall', 'catchall-ns-event', 'catchall-ns-catchall', 'ns-class', 'catchall-class']
 
 
